@@ -720,6 +720,36 @@ def impure_sources(repo):
             if isinstance(n, ast.If) and "__main__" in ast.unparse(n.test):
                 for x in ast.walk(n):
                     main_guard.add(id(x))
+        # per function: local names bound to a set-valued expression (constructor, literal, comprehension, set algebra)
+        set_locals = {}
+
+        def _is_setexpr(e, known):
+            if isinstance(e, (ast.Set, ast.SetComp)):
+                return True
+            if isinstance(e, ast.Call) and isinstance(e.func, ast.Name) and e.func.id in ("set", "frozenset"):
+                return True
+            if isinstance(e, ast.Call) and isinstance(e.func, ast.Attribute) and e.func.attr in (
+                    "intersection", "union", "difference", "symmetric_difference", "copy") \
+                    and (e.func.attr != "copy" or _is_setexpr(e.func.value, known)):
+                return True
+            if isinstance(e, ast.BinOp) and isinstance(e.op, (ast.BitAnd, ast.BitOr, ast.BitXor, ast.Sub)):
+                return _is_setexpr(e.left, known) or _is_setexpr(e.right, known)
+            if isinstance(e, ast.Name):
+                return e.id in known
+            return False
+        for fdef in ast.walk(tree):
+            if not isinstance(fdef, (ast.FunctionDef, ast.AsyncFunctionDef)):
+                continue
+            known = set()
+            for _round in range(3):
+                for a_ in ast.walk(fdef):
+                    if isinstance(a_, ast.Assign) and len(a_.targets) == 1 and isinstance(a_.targets[0], ast.Name) \
+                            and _is_setexpr(a_.value, known):
+                        known.add(a_.targets[0].id)
+            if known:
+                for x in ast.walk(fdef):
+                    if isinstance(x, (ast.For, ast.comprehension, ast.Call)):
+                        set_locals[id(x)] = known
         for n in ast.walk(tree):
             if id(n) in main_guard:
                 continue
@@ -767,13 +797,20 @@ def impure_sources(repo):
                         isset = (isinstance(top, ast.Call) and isinstance(top.func, ast.Name) and top.func.id in ("set", "frozenset")) \
                             or isinstance(top, (ast.Set, ast.SetComp)) \
                             or (isinstance(top, ast.Call) and isinstance(top.func, ast.Attribute) and top.func.attr in (
-                                "intersection", "union", "difference", "symmetric_difference"))
+                                "intersection", "union", "difference", "symmetric_difference")) \
+                            or (isinstance(top, ast.Name) and top.id in set_locals.get(id(n), ()))
                         if isset:
                             bad.append({"file": fn, "line": n.lineno,
                                         "what": "set turned into a sequence (hash-seed dependent order): %s" % ast.unparse(n)[:60]})
             if isinstance(n, (ast.For, ast.comprehension)):
                 it = n.iter
                 if isinstance(it, ast.Call) and isinstance(it.func, ast.Name) and it.func.id == "sorted":
+                    continue
+                # a local NAME that the enclosing function binds to a set expression (both = set(a).intersection(b) ...
+                # for hdr in both): same judgement as the expression itself
+                if isinstance(it, ast.Name) and it.id in set_locals.get(id(n), ()):
+                    bad.append({"file": fn, "line": getattr(n, "lineno", it.lineno),
+                                "what": "iteration in set order (hash-seed dependent): %s is bound to a set in this function" % it.id})
                     continue
                 for x in ast.walk(it):
                     if (isinstance(x, ast.Call) and isinstance(x.func, ast.Name) and x.func.id in ("set", "frozenset")) \
